@@ -141,6 +141,10 @@ func (r *Report) Finish(w *World, verifDir string, loadErr error) int {
 	if loadErr != nil {
 		r.Undecided("LOAD", "repository", "", loadErr.Error())
 	}
+	if BudgetHits > 0 {
+		r.Undecided("INTERNAL", "path budget", "", fmt.Sprintf("%d path queries exceeded the state budget and were answered conservatively", BudgetHits))
+		BudgetHits = 0
+	}
 	if w != nil {
 		for _, u := range w.Unresolved() {
 			r.Undecided("ANCHOR", u, "", "anchor named by a rule table does not resolve in the analysed tree; the rule cannot be decided")
